@@ -282,6 +282,7 @@ def httpUp (cfg : Cfg) (c declared : Nat) (digest : Option Bytes) (f : Option Fa
         if p.1.length = declared ∧ digestMatches digest p.1 = true then
           let st2 : UState := { st1 with visible := some p.1 }
           if f = some .lost then ⟨some .transport, st2, p.1.length⟩ else ⟨none, st2, p.1.length⟩
+        else if f = some .lost then ⟨some .transport, st1, p.1.length⟩     -- refused, and the 400 never arrives
         else ⟨some (hook cfg 400 false), st1, p.1.length⟩
   match r.err with
   | none => r
